@@ -377,8 +377,9 @@ PROPS["C18"] = dict(
 )
 
 PROPS["C07"] = dict(
-    modules=["common", "c07"],
-    contracts=["ensure_absolute_path", "check_path_is_file", "wsgi.Pages.ensure_absolute_path", "asgi.Pages.ensure_absolute_path"],
+    modules=["common", "hdrs", "c03", "c02", "c14", "c07"],
+    contracts=["ensure_absolute_path", "check_path_is_file", "wsgi.Pages.ensure_absolute_path", "asgi.Pages.ensure_absolute_path",
+               "wsgi.Files.__call__", "wsgi.Pages.__call__", "asgi.Files.__call__", "asgi.Pages.__call__"],
     refute={"quick": [2], "thorough": [1, 2, 3]},
     native="c07",
     level="other",
@@ -389,15 +390,20 @@ PROPS["C07"] = dict(
                "is inside (the code's test on relpath is exactly the 'outside' form of A-path-2 - the old two-character "
                "prefix test is not); Pages.ensure_absolute_path keeps confinement and maps every directory URL to its "
                "index.html; check_path_is_file answers (None, False) for a missing entry or a path below a regular file "
-               "without raising, and (stat, S_ISREG) otherwise, issuing one stat on exactly the given path. BOUNDED "
-               "(labelled): the decision logic of Files/Pages.__call__, the assumptions A-path-* themselves and the "
-               "'nothing outside is ever opened' clause are run on a real temp tree with parent/sibling secrets under an "
+               "without raising, and (stat, S_ISREG) otherwise, issuing one stat on exactly the given path; the four "
+               "applications (Files / Pages.__call__ on both interfaces, entering the helpers through their contracts) hand "
+               "to os.stat only paths inside the configured directory - at most one (Files) or two (Pages: the path and "
+               "path + '.html') -, serve only the path they stat'ed as a regular file, and produce exactly one outcome "
+               "(response, redirect, handle_404 or HTTPException(404) when no handler is configured). BOUNDED "
+               "(labelled): the assumptions A-path-* themselves and the 'nothing outside is ever opened' clause on a real "
+               "file system are run on a real temp tree with parent/sibling secrets under an "
                "audit hook, against a lexical reference resolver, for all paths over a 14-segment alphabet to depth 2-3.",
     level_note="Trusted (and carrying most of the weight): os.path.join/abspath are functions of their arguments (A-path-1); "
                "relpath(p, d) is '..' or starts with '../' exactly when p is neither d nor below d (A-path-2); POSIX "
                "separator (A-posix); os.stat raises only FileNotFoundError / NotADirectoryError for request-dependent "
-               "reasons (A-stat); the configured directory is absolute, normalised and not the root. Files/Pages.__call__ are "
-               "not under contract (bounded only). Symbolic links inside the directory are followed (out of scope).",
+               "reasons (A-stat); the configured directory is absolute, normalised, not the root, and exists (A-dir-exists: without "
+               "it Pages would stat '<directory>.html' for the request path ''). Calling the response object is recorded, "
+               "not executed (its emissions are C02 / C05 / C14). Symbolic links inside the directory are followed (out of scope).",
     technique="deductive verification relative to assumed posixpath contracts (string theory); bounded run on a real tree with an audit hook and a lexical reference resolver",
     explanation="proved (relative to A-path-*): confinement and completeness of ensure_absolute_path, Pages index mapping, "
                 "check_path_is_file; bounded: app decision logic, audit of touched paths, validation of the assumptions.",
